@@ -29,7 +29,9 @@ def quietNU : Nat → World → Nat → Bool
         swNoop (w.dev x) && (w.dev x).up.all (fun u => quietSA f w u)
       else true
     | .source | .handler | .processor | .batcher | .sink =>
-      swNoop (w.dev x) && (w.dev x).up.all (fun u => quietSA f w u)
+      -- the stamp is attempted only when both slots are free (fix of finding F13)
+      (!((w.dev x).part.isNone && (w.dev x).output.isNone) || swNoop (w.dev x)) &&
+        (w.dev x).up.all (fun u => quietSA f w u)
     | .ginput => ((w.groups.getD (w.dev x).group default).paths).all (fun gp => quietNU f w gp)
     | .gate | .gpath | .goutput => (w.dev x).up.all (fun u => quietSA f w u)
 
@@ -106,8 +108,16 @@ theorem quiet_noop (f : Nat) : ∀ (w : World) (x : Nat),
       case goutput => exact hfoldS _ h
       all_goals
         simp only [Bool.and_eq_true] at h
-        rw [setWaiting_noop w x h.1]
-        exact hfoldS _ h.2
+        by_cases hfree : ((w.dev x).part.isNone && (w.dev x).output.isNone) = true
+        · simp only [hfree, if_true]
+          have hsw : swNoop (w.dev x) = true := by
+            have := h.1
+            simp only [hfree, Bool.not_true, Bool.false_or] at this
+            exact this
+          rw [setWaiting_noop w x hsw]
+          exact hfoldS _ h.2
+        · simp only [hfree]
+          exact hfoldS _ h.2
     · intro h
       rw [quietSA] at h
       rw [spaceAvail]
@@ -155,13 +165,15 @@ theorem quiet_congr (f : Nat) : ∀ (w w' : World), UpEq w w' → ∀ x,
     have hgrp : (w'.dev x).group = (w.dev x).group := h.field Dev.group (fun _ _ => rfl) x
     have hsw : swNoop (w'.dev x) = swNoop (w.dev x) := h.field swNoop (fun _ _ => rfl) x
     have hwd : (w'.dev x).waitingDS = (w.dev x).waitingDS := h.field Dev.waitingDS (fun _ _ => rfl) x
+    have hpt : (w'.dev x).part = (w.dev x).part := h.field Dev.part (fun _ _ => rfl) x
+    have hot : (w'.dev x).output = (w.dev x).output := h.field Dev.output (fun _ _ => rfl) x
     have hop : w'.operational x = w.operational x := by
       unfold operational
       rw [hk, h.field Dev.shutDown (fun _ _ => rfl) x]
     have hS : (fun u => quietSA f w' u) = (fun u => quietSA f w u) := funext (fun u => (ih w w' h u).2)
     have hN : (fun u => quietNU f w' u) = (fun u => quietNU f w u) := funext (fun u => (ih w w' h u).1)
     constructor
-    · rw [quietNU, quietNU, hk, hcap, hlev, hup, hgrp, hsw, hS, hN, h.2]
+    · rw [quietNU, quietNU, hk, hcap, hlev, hup, hgrp, hsw, hpt, hot, hS, hN, h.2]
     · rw [quietSA, quietSA, hk, hgrp, hwd, hop, h.2, (ih w w' h x).1, (ih w w' h _).2]
 
 /-! ### the generalised "wakes nobody" condition -/
